@@ -200,7 +200,7 @@ func evalFile(b []byte, pattern string) (fs []finding, class string) {
 	if (o.Res == "ok" || o.Res == "error") && (l.Res == "ok" || l.Res == "error") {
 		if o.Res != l.Res || o.CtlExt != l.CtlExt || o.DataExt != l.DataExt || o.Pkg != l.Pkg || !sameMem(o.Mem, l.Mem) {
 			add(finding{"loadfile-same-as-load", fmt.Sprintf("deb.Load: %s control%s data%s package=%q members=%d", l.Res, l.CtlExt, l.DataExt, l.Pkg, len(l.Mem)),
-				fmt.Sprintf("deb.LoadFile: %s control%s data%s package=%q members=%d", o.Res, o.CtlExt, o.DataExt, o.Pkg, len(o.Mem))})
+				fmt.Sprintf("deb.LoadFile: %s control%s data%s package=%q members=%d | Load members: %s | LoadFile members: %s", o.Res, o.CtlExt, o.DataExt, o.Pkg, len(o.Mem), descMem(l.Mem), descMem(o.Mem))})
 		}
 	}
 	return
